@@ -181,6 +181,9 @@ class Run:
     def check_lock(self, update=False):
         path = os.path.join(ROOT, 'contracts', 'locks', self.prop + '.lock')
         ids = sorted(self.obls)
+        if not ids and not self.functions and not os.path.exists(path):
+            self.lock_size = 0
+            return        # no deductive part for this property (bounded stand-in only, level `other`)
         if update:
             os.makedirs(os.path.dirname(path), exist_ok=True)
             open(path, 'w').write('\n'.join(ids) + '\n')
@@ -352,23 +355,7 @@ class Run:
 
 def _patched_module(rel, text):
     from .front import Module
-    m = Module.__new__(Module)
-    import ast
-    m.relpath, m.path, m.text = rel, rel, text
-    m.drops, m.prange_lines, m.decorators, m.ctypes = [], [], {}, {}
-    m.pytext = m.desugar(text) if rel.endswith('.pyx') else text
-    m.tree = ast.parse(m.pytext)
-    m.funcs, m.classes = {}, {}
-    for n in m.tree.body:
-        if isinstance(n, ast.FunctionDef):
-            m.funcs[n.name] = n
-        elif isinstance(n, ast.ClassDef):
-            m.classes[n.name] = n
-            for x in n.body:
-                if isinstance(x, ast.FunctionDef):
-                    m.funcs['%s.%s' % (n.name, x.name)] = x
-    m.globals_const = {}
-    return m
+    return Module(rel, text=text)
 
 
 def _lean_path():
